@@ -363,6 +363,7 @@ func (b *GRPCBroker) Accept(id uint32) (net.Listener, error) {
 	if b.addrTranslator != nil {
 		advertiseNet, advertiseAddr, err = b.addrTranslator.HostToPlugin(advertiseNet, advertiseAddr)
 		if err != nil {
+			listener.Close()
 			return nil, err
 		}
 	}
@@ -372,6 +373,9 @@ func (b *GRPCBroker) Accept(id uint32) (net.Listener, error) {
 		Address:   advertiseAddr,
 	})
 	if err != nil {
+		// Nobody will ever learn about this listener (e.g. the broker has
+		// been closed): do not leave it, and its socket file, behind.
+		listener.Close()
 		return nil, err
 	}
 
